@@ -22,6 +22,8 @@ type c05Case struct {
 	T        int    `json:"timeoutMs"`
 	Delta    int    `json:"deltaMs"` // race: the runtime posts its response Delta ms after expiry (negative: before)
 	Hook     string `json:"hook,omitempty"`
+	// Dotted: the extension files have names with dots (e1.sh, e2.tar.gz) - still "every process of that environment"
+	Dotted bool `json:"dotted,omitempty"`
 }
 
 func (c *c05Case) extEvents(i int) []string {
@@ -35,6 +37,9 @@ func (c *c05Case) extEvents(i int) []string {
 func (c *c05Case) scenario() *Scenario {
 	sc := &Scenario{Config: Config{TimeoutMs: int64(c.T), TimeoutEnvS: 9}, Actors: map[string][]Script{}, BudgetS: 40, SelectBy: "stage"}
 	names := []string{"e1", "e2"}
+	if c.Dotted {
+		names = []string{"e1.sh", "e2.tar.gz"}
+	}
 	healthyRT := Script{Steps: []Step{{Op: "rt.loop"}}}
 	var rt Script
 	exts := make([]Script, c.NExt)
@@ -281,6 +286,7 @@ func c05Gen(t *rapid.T) c05Case {
 		c.ExtStick = append(c.ExtStick, stick && c.SubShut[i] && rapid.Bool().Draw(t, fmt.Sprintf("stick%d", i)))
 	}
 	c.RtIgnore = stick && rapid.Bool().Draw(t, "rtIgnore")
+	c.Dotted = c.NExt > 0 && rapid.IntRange(0, 3).Draw(t, "dotted") == 0
 	return c
 }
 
@@ -292,7 +298,8 @@ func c05Fixed() []c05Case {
 	}
 	// the same stalls in an environment that was started after an earlier reset
 	out = append(out, c05Case{Family: "stall", Phase: "e1.register", NExt: 1, SubShut: []bool{true}, ExtStick: []bool{false}, T: 150, Gen2: true},
-		c05Case{Family: "stall", Phase: "rt.firstnext", NExt: 1, SubShut: []bool{false}, ExtStick: []bool{false}, T: 150, Gen2: true})
+		c05Case{Family: "stall", Phase: "rt.firstnext", NExt: 1, SubShut: []bool{false}, ExtStick: []bool{false}, T: 150, Gen2: true},
+		c05Case{Family: "stall", Phase: "rt.response", NExt: 2, SubShut: []bool{true, false}, ExtStick: []bool{false, false}, T: 150, Dotted: true})
 	out = append(out, c05Case{Family: "hook", Hook: "fastinvoke.success", T: 150}, c05Case{Family: "hook", Hook: "fastinvoke.success", T: 150, NExt: 1, SubShut: []bool{true}, ExtStick: []bool{false}, Gen2: true},
 		c05Case{Family: "hook", Hook: "invoke.timeoutFired", T: 150}, c05Case{Family: "hook", Hook: "reset.flowsCancelled", T: 150, NExt: 1, SubShut: []bool{true}, ExtStick: []bool{false}})
 	if kit.Thorough() {
